@@ -1,9 +1,11 @@
 mod buildsim;
 mod clock;
+mod concsim;
 mod dicfmt;
 mod sink;
 mod dictfac;
 mod harness;
+mod mirigen;
 mod proj;
 mod rng;
 mod simdict;
@@ -24,6 +26,7 @@ fn main() {
     let exit = match args[1].as_str() {
         "toksim" => run_batch(&toksim::TokSim, &opts).exit,
         "buildsim" => run_batch(&buildsim::BuildSim, &opts).exit,
+        "concsim" => run_batch(&concsim::ConcSim, &opts).exit,
         "dbgtok" => {
             // vsim dbgtok --replay file --text T --mode A
             let doc: serde_json::Value = serde_json::from_slice(&std::fs::read(opts.replay.as_ref().unwrap()).unwrap()).unwrap();
@@ -42,6 +45,16 @@ fn main() {
                 println!("  {:?}", m.surface());
             }
             0
+        }
+        "mirigen" => {
+            let out = opts.extra.get("out").cloned().unwrap_or_else(|| "/verif/work/miri".to_string());
+            match mirigen::generate(opts.seed, std::path::Path::new(&out)) {
+                Ok(()) => 0,
+                Err(e) => {
+                    eprintln!("HARNESS-ERROR: mirigen: {}", e);
+                    2
+                }
+            }
         }
         "dumpcase" => {
             // vsim dumpcase --engine buildsim --run N  -> prints the generated case
